@@ -121,8 +121,42 @@ theorem hrnp_roundtrip (p p' : Pdu) (bs : Bytes) (h v block src dst pn : Nat)
     have i5 : idx b 5 = .ok dst := by rw [hbe]; simp [idx, pure, Except.pure]
     have nl1 : ¬ b.length < 12 := by omega
     have nl2 : ¬ b.length < 12 + bs.length := by omega
+    have s010 : sl b 0 10 = hrnpHead [h] [v] block hrnpDATA src dst pn (12 + bs.length) := by
+      rw [hbe]; simp [sl, hrnpHead, be2]
     simp only [Hrnp.fromBytes, s1, s2, s3, s4, s5, i2, i3, i4, i5, ofBe2', e2, e3, e4, hd, hinner, hrt, nl1, nl2,
-      if_false, bind, Except.bind, pure, Except.pure, Hrnp.init, hver p' ck hb' hl']
-    simp
+      if_false, bind, Except.bind, pure, Except.pure, Hrnp.init, hver p' ck hb' hl', s010]
+    simp [be2, ck]
+
+/-- packets without data (connect, accept, reject, close, close-ack, data-ack) -/
+theorem hrnp_nodata_roundtrip (h v block opcode src dst pn : Nat) (hop : opcode ∈ hrnpValues)
+    (hnd : opcode ≠ hrnpDATA) (hpn : pn < 65536) :
+    let b := hrnpPacket h v block opcode src dst pn []
+    let ck := hrnpCheck (hrnpHead [h] [v] block opcode src dst pn 12)
+    Hrnp.init none opcode src dst block pn 0 [h] [v]
+        = .ok ⟨[h], [v], block, opcode, src, dst, pn, none, ck, ck == 0⟩
+    ∧ Hrnp.asBytes ⟨[h], [v], block, opcode, src, dst, pn, none, ck, ck == 0⟩ = .ok b
+    ∧ b.length = 12 ∧ ofBe (sl b 8 10) = 12
+    ∧ Hrnp.fromBytes b = .ok ⟨[h], [v], block, opcode, src, dst, pn, none, ck, true⟩
+    ∧ Hrnp.asBytes ⟨[h], [v], block, opcode, src, dst, pn, none, ck, true⟩ = .ok b := by
+  intro b ck
+  have hckl : ck < 65536 := hrnpCheck_lt _
+  have hver : ∀ c : Nat, hrnpVerify [h] [v] block opcode src dst pn none c = .ok (ck == c, ck) := by
+    intro c
+    simp [hrnpVerify, hrnpLen, hnd, bind, Except.bind, pure, Except.pure, ck]
+  have hasb : ∀ (c : Nat) (cc : Bool),
+      Hrnp.asBytes ⟨[h], [v], block, opcode, src, dst, pn, none, c, cc⟩ = .ok b := by
+    intro c cc
+    simp [Hrnp.asBytes, Hrnp.len, hrnpLen, hver c, hnd, bind, Except.bind, pure, Except.pure, b, hrnpPacket, ck]
+  have e2 := Nat.mod_eq_of_lt hpn
+  have e4 := Nat.mod_eq_of_lt hckl
+  have hd := enumOf_mem hop
+  have hbe : b = [h, v, block, opcode, src, dst, pn / 256 % 256, pn % 256, 0, 12, ck / 256 % 256, ck % 256] := by
+    simp [b, hrnpPacket, hrnpHead, be2, ck]
+  refine ⟨?_, hasb _ _, by rw [hbe]; rfl, by rw [hbe]; simp [sl, ofBe], ?_, hasb _ _⟩
+  · simp [Hrnp.init, hver 0, bind, Except.bind, pure, Except.pure]
+  · rw [hbe]
+    simp [Hrnp.fromBytes, sl, idx, ofBe2', e2, e4, hd, Hdap.fromBytes, Hrnp.init, hver ck, bind, Except.bind, pure,
+      Except.pure, show ofBe [0, 12] = 12 by rfl, be2]
+    simp [ck, hrnpHead, be2]
 
 end Dmr.Hytera
